@@ -3,6 +3,11 @@ use crate::{emulator::Emulator, host::Host, zx::tape::TapeImpl, Result};
 use rustzx_z80::{RegName16, Z80Bus, FLAG_CARRY, FLAG_ZERO};
 
 pub fn fast_load_tap<H: Host>(emulator: &mut Emulator<H>) -> Result<()> {
+    // Nothing to do when the tape has no more blocks: leave the CPU untouched, so
+    // the ROM keeps waiting for a signal just like it does with a silent tape
+    if !emulator.controller.tape.next_block()? {
+        return Ok(());
+    }
     // So, at current moment we at 0x056C in 48K Rom.
     // AF contains some garbage. so we need to swap if with A'F'
     emulator.cpu.regs.swap_af_alt();
@@ -17,11 +22,6 @@ pub fn fast_load_tap<H: Host>(emulator: &mut Emulator<H>) -> Result<()> {
     let mut length = emulator.cpu.regs.get_reg_16(RegName16::DE);
     // parity accumulator and current byte (h, l) regs
     let (mut parity_acc, mut current_byte) = (0, 0);
-    // move to next block
-    if !emulator.controller.tape.next_block()? {
-        return Ok(());
-    }
-
     'loader: loop {
         // if we still on block
         if let Some(byte) = emulator.controller.tape.next_block_byte()? {
